@@ -33,6 +33,9 @@ pub enum LifeOp {
     /// `Runtime::add` one more registered constant (payload 5000+aid) to the runtime in slot `r`;
     /// scripts compiled from it (or from clones made afterwards) use the constant
     AddConstant { r: usize, aid: u64 },
+    /// `Runtime::add` one more registered closure `xf<aid % 2>` capturing a tracked value with
+    /// payload 6000+aid to the runtime in slot `r`
+    AddFunction { r: usize, aid: u64 },
 }
 
 #[derive(Clone, Debug, Serialize, Deserialize)]
@@ -187,7 +190,11 @@ pub fn many_constants(k: u64) -> u64 {
 
 pub fn script(m: u64, k: u64, broken: bool, extras: &[u64]) -> String {
     // constants added to the runtime after its construction (payload 5000+aid, name X<aid>)
-    let ex_body = if extras.is_empty() { "0".to_string() } else { extras.iter().map(|p| format!("val(X{})", (p - 5000) % 2)).collect::<Vec<_>>().join(" + ") };
+    let ex_body = if extras.is_empty() {
+        "0".to_string()
+    } else {
+        extras.iter().map(|p| if *p >= 6000 { format!("xf{}()", (p - 6000) % 2) } else { format!("val(X{})", (p - 5000) % 2) }).collect::<Vec<_>>().join(" + ")
+    };
     // version 6 carries 72 more script constants (their storage is more than 1 KiB)
     let nmany = many_constants(k);
     let many_decl: String = (0..nmany).map(|i| if i % 10 == 9 { format!("const N{i}_{k}: String = \"n{i}\";\n") } else { format!("const N{i}_{k}: u64 = {};\n", i + k) }).collect();
@@ -395,7 +402,7 @@ fn check_not_before(site: &str) {
         if live.get(&p).copied().unwrap_or(0) < 1 {
             viol::record(
                 "released-too-early",
-                format!("at {site}: the registered constant X{} with payload {p} (added to a runtime with Runtime::add) was released although a runtime carrying it or a module compiled with it is still alive", (p - 5000) % 2),
+                format!("at {site}: the registered {} with payload {p} (added to a runtime with Runtime::add) was released although a runtime carrying it or a module compiled with it is still alive", if p >= 6000 { format!("closure xf{}", (p - 6000) % 2) } else { format!("constant X{}", (p - 5000) % 2) }),
             );
             return;
         }
@@ -517,6 +524,7 @@ fn label(op: &LifeOp) -> &'static str {
         LifeOp::DropPackage { .. } => "drop-package",
         LifeOp::IntoFunc { .. } => "into-func",
         LifeOp::AddConstant { .. } => "add-constant",
+        LifeOp::AddFunction { .. } => "add-function",
     }
 }
 
@@ -730,7 +738,7 @@ fn exec_inner(op: &LifeOp) -> bool {
                     let many: u64 = (0..many_constants(k)).filter(|i| i % 10 != 9).map(|i| i + k).sum();
                     let want = x.wrapping_mul(k) + 2 * c + (200 + rid) + (100 + rid) + 2 + 1 + (c + 2) + k + (c + 3) + (300 + rid) + 2 + extras.iter().sum::<u64>() + many + (600 + rid) + (700 + rid);
                     let mut want_log: Vec<(&str, u64)> = vec![("log", *x), ("val", c), ("val", c), ("val", 200 + rid), ("cap", 100 + rid), ("val", c + 2), ("val", c + 3), ("val", 300 + rid)];
-                    want_log.extend(extras.iter().map(|p| ("val", *p)));
+                    want_log.extend(extras.iter().map(|p| if *p >= 6000 { ("cap", *p) } else { ("val", *p) }));
                     want_log.push(("cap", 600 + rid));
                     want_log.push(("cap", 700 + rid));
                     if got != want || log != want_log {
@@ -818,7 +826,7 @@ fn exec_inner(op: &LifeOp) -> bool {
             // of the same name with different values, and their scripts then have the same text
             let payload = 5000 + aid;
             let name = format!("X{}", aid % 2);
-            if e.extras.iter().any(|p| (p - 5000) % 2 == aid % 2) {
+            if e.extras.iter().any(|p| *p < 6000 && (p - 5000) % 2 == aid % 2) {
                 back_rt(*r, e);
                 return false;
             }
@@ -830,6 +838,25 @@ fn exec_inner(op: &LifeOp) -> bool {
                     with_model(|m| *m.extra_holders.entry(payload).or_insert(0) += 1);
                 }
                 Err(err) => viol::record("registration-failed", format!("Runtime::add of constant {name}: {err}")),
+            }
+            back_rt(*r, e);
+            true
+        }
+        LifeOp::AddFunction { r, aid } => {
+            let Some(mut e) = with_pools(|p| p.rts[*r].take()) else { return false };
+            let payload = 6000 + aid;
+            let name = format!("xf{}", aid % 2);
+            if e.extras.iter().any(|p| *p >= 6000 && (p - 6000) % 2 == aid % 2) {
+                back_rt(*r, e);
+                return false;
+            }
+            let res = roto::Function::new(name.as_str(), "closure added after construction", vec![], same_type_closure(T24::new(payload)), roto::location!()).and_then(|f| e.rt.0.add(f));
+            match res {
+                Ok(()) => {
+                    e.extras.push(payload);
+                    with_model(|m| *m.extra_holders.entry(payload).or_insert(0) += 1);
+                }
+                Err(err) => viol::record("registration-failed", format!("Runtime::add of function {name}: {err}")),
             }
             back_rt(*r, e);
             true
@@ -865,7 +892,7 @@ struct Sym {
     next_aid: u64,
 }
 
-fn gen_op(r: &mut Rng, s: &mut Sym, weights: &[u32; 12]) -> Option<LifeOp> {
+fn gen_op(r: &mut Rng, s: &mut Sym, weights: &[u32; 13]) -> Option<LifeOp> {
     let full = |v: &Vec<Option<u64>>| -> Vec<usize> { (0..v.len()).filter(|&i| v[i].is_some()).collect() };
     let empty_or_any = |r: &mut Rng, v: &Vec<Option<u64>>| -> usize {
         let e: Vec<usize> = (0..v.len()).filter(|&i| v[i].is_none()).collect();
@@ -945,6 +972,10 @@ fn gen_op(r: &mut Rng, s: &mut Sym, weights: &[u32; 12]) -> Option<LifeOp> {
                 s.next_aid += 1;
                 return Some(LifeOp::AddConstant { r: *r.pick(&rts), aid: s.next_aid });
             }
+            12 if !rts.is_empty() => {
+                s.next_aid += 1;
+                return Some(LifeOp::AddFunction { r: *r.pick(&rts), aid: s.next_aid });
+            }
             _ => {}
         }
     }
@@ -1014,10 +1045,10 @@ pub fn generate(run_seed: u64, thorough: bool) -> LifeDesc {
     let mut s = Sym { rts: vec![None; N_RT], pks: vec![None; N_PK], hds: vec![None; N_HD], next_rid: 0, next_m: 0, next_aid: 0 };
     // phase 1: sequential setup on the main thread
     let mut setup = Vec::new();
-    let w_setup: [u32; 12] = [12, 6, 6, 22, 4, 24, 8, 8, 4, 4, 3, 6];
+    let w_setup: [u32; 13] = [12, 8, 6, 22, 4, 24, 8, 8, 4, 4, 3, 6, 6];
     let n_setup = 3 + r.below(if thorough { 10 } else { 7 });
     // always start with a runtime
-    setup.push(gen_op(&mut r, &mut s, &[1, 0, 0, 0, 0, 0, 0, 0, 0, 0, 0, 0]).unwrap());
+    setup.push(gen_op(&mut r, &mut s, &[1, 0, 0, 0, 0, 0, 0, 0, 0, 0, 0, 0, 0]).unwrap());
     for _ in 0..n_setup {
         if let Some(op) = gen_op(&mut r, &mut s, &w_setup) {
             setup.push(op);
@@ -1026,7 +1057,7 @@ pub fn generate(run_seed: u64, thorough: bool) -> LifeDesc {
     // phase 2: a random merge of operations over 1-3 threads
     let nthreads = 1 + r.weighted(&[10, 55, 35]);
     let per = if thorough { 3 + r.below(10) } else { 2 + r.below(6) } as usize;
-    let w: [u32; 12] = [3, 4, 8, 13, 4, 12, 8, 30, 12, 8, 4, 5];
+    let w: [u32; 13] = [3, 5, 8, 13, 4, 12, 8, 30, 12, 8, 4, 5, 5];
     let mut threads: Vec<Vec<LifeOp>> = vec![Vec::new(); nthreads];
     for _ in 0..per * nthreads {
         let t = r.below(nthreads as u64) as usize;
